@@ -1648,6 +1648,8 @@ class Cell(Bucket):
 
             if app.blacklisted:
                 _LOGGER.info('App %s is blacklisted', app.name)
+                # Not placed: must not keep holding an identity.
+                app.release_identity()
                 continue
 
             if app.final_rank == _UNPLACED_RANK:
